@@ -117,8 +117,8 @@ func Family(full bool) []FamDoc {
 	// (2) containers x numbering x extras on a 3-page nested document
 	for _, container := range []string{"classic", "xrefstream", "objstream"} {
 		for _, numbering := range []string{"dense", "gaps", "dangling-free-ref"} {
-			for _, extra := range []string{"none", "attachment", "outline", "filters", "no-info"} {
-				if !full && !(extra == "none" || (container == "classic" && numbering == "dense") || (container == "objstream" && numbering == "gaps" && extra == "filters")) {
+			for _, extra := range []string{"none", "attachment", "outline", "filters", "no-info", "hazard-names"} {
+				if !full && !(extra == "none" || (container == "classic" && numbering == "dense") || (extra == "hazard-names" && numbering == "dense") || (container == "objstream" && numbering == "gaps" && extra == "filters")) {
 					continue
 				}
 				d, mk, rot, media := famTree(3, true, "first-subtree-defines")
@@ -166,6 +166,18 @@ func Family(full bool) []FamDoc {
 							o.body = "<</Filter[/ASCIIHexDecode/FlateDecode]>>"
 						}
 						k++
+					}
+				case "hazard-names":
+					// resource names and a dictionary key with bytes that need #xx escapes (UTF-8 no-break and ideographic spaces, '#', delimiter)
+					for _, nr := range sortedKeys(d.objs) {
+						o := d.objs[nr]
+						if strings.Contains(o.body, "/Type/Page/") {
+							o.body = strings.Replace(o.body, "/Font<</F1 ", "/Font<</Lime#c2#a0Green 3 0 R/Spot#e3#80#80One 3 0 R/A#23B#28 3 0 R/F1 ", 1)
+						}
+						if o.isStrm && strings.Contains(string(o.stream), " cm Q") {
+							// the content uses the fonts, so that optimisation keeps them
+							o.stream = append(o.stream, []byte("BT /Lime#c2#a0Green 9 Tf 10 10 Td (x) Tj /Spot#e3#80#80One 9 Tf (y) Tj /A#23B#28 9 Tf (z) Tj ET\n")...)
+						}
 					}
 				case "no-info":
 					delete(d.objs, d.Info)
